@@ -192,9 +192,12 @@ impl CoseSign {
     /// # Panics
     ///
     /// This method will panic if `which` is >= `self.signatures.len()`.
-    pub fn verify_signature<F, E>(&self, which: usize, aad: &[u8], verifier: F) -> Result<(), E>
+    pub fn verify_signature<F, E>(&self, which: usize, aad: &[u8], verifier: F) ->« (r:» Result<(), E>«)»
     where
-        F: FnOnce(&[u8], &[u8]) -> Result<(), E>,
+        F: FnOnce(&[u8], &[u8]) -> Result<(), E>,«
+        requires which < self.signatures@.len(), prot_encodable(self.protected), prot_encodable(self.signatures@[which as int].protected),
+            forall |a: &[u8], b: &[u8]| call_requires(verifier, (a, b)),
+        ensures exists |s: &[u8], d: &[u8]| s@ == self.signatures@[which as int].signature@ && d@ == sign_tbs(*self, aad@, self.signatures@[which as int]) && call_ensures(verifier, (s, d), r),»
     {
         let sig = &self.signatures[which];
         let tbs_data = self.tbs_data(aad, sig);
@@ -215,9 +218,12 @@ impl CoseSign {
         payload: &[u8],
         aad: &[u8],
         verifier: F,
-    ) -> Result<(), E>
+    ) ->« (r:» Result<(), E>«)»
     where
-        F: FnOnce(&[u8], &[u8]) -> Result<(), E>,
+        F: FnOnce(&[u8], &[u8]) -> Result<(), E>,«
+        requires which < self.signatures@.len(), self.payload is None, prot_encodable(self.protected), prot_encodable(self.signatures@[which as int].protected),
+            forall |a: &[u8], b: &[u8]| call_requires(verifier, (a, b)),
+        ensures exists |s: &[u8], d: &[u8]| s@ == self.signatures@[which as int].signature@ && d@ == sign_tbs_detached(*self, payload@, aad@, self.signatures@[which as int]) && call_ensures(verifier, (s, d), r),»
     {
         let sig = &self.signatures[which];
         let tbs_data = self.tbs_detached_data(payload, aad, sig);
@@ -225,7 +231,9 @@ impl CoseSign {
     }
 
     /// Construct the to-be-signed data for this object.
-    pub fn tbs_data(&self, aad: &[u8], sig: &CoseSignature) -> Vec<u8> {
+    pub fn tbs_data(&self, aad: &[u8], sig: &CoseSignature) ->« (r:» Vec<u8>«)
+        requires prot_encodable(self.protected), prot_encodable(sig.protected),
+        ensures r@ == sign_tbs(*self, aad@, *sig),» {
         sig_structure_data(
             SignatureContext::CoseSignature,
             self.protected.clone(),
@@ -240,7 +248,9 @@ impl CoseSign {
     /// # Panics
     ///
     /// This method will panic if `self.payload.is_some()`.
-    pub fn tbs_detached_data(&self, payload: &[u8], aad: &[u8], sig: &CoseSignature) -> Vec<u8> {
+    pub fn tbs_detached_data(&self, payload: &[u8], aad: &[u8], sig: &CoseSignature) ->« (r:» Vec<u8>«)
+        requires prot_encodable(self.protected), prot_encodable(sig.protected), self.payload is None,
+        ensures r@ == sign_tbs_detached(*self, payload@, aad@, *sig),» {
         assert!(self.payload.is_none());
         sig_structure_data(
             SignatureContext::CoseSignature,
@@ -297,7 +307,8 @@ impl CoseSignBuilder {
 
     /// Add a signature value.
     #[must_use]
-    pub fn add_signature(self, sig: CoseSignature) -> Self { let mut self_ = self;
+    pub fn add_signature(self, sig: CoseSignature) ->« (r:» Self«)
+        ensures r.inner() == (CoseSign { signatures: r.inner().signatures, ..self.inner() }), r.inner().signatures@ == self.inner().signatures@.push(sig),» { let mut self_ = self;
         self_.0.signatures.push(sig);
         self_
     }
@@ -306,9 +317,13 @@ impl CoseSignBuilder {
     /// used to complete `sig`.  Any protected header values should be set before using this
     /// method.
     #[must_use]
-    pub fn add_created_signature<F>(self, mut sig: CoseSignature, aad: &[u8], signer: F) -> Self
+    pub fn add_created_signature<F>(self, mut sig: CoseSignature, aad: &[u8], signer: F) ->« (r:» Self«)»
     where
-        F: FnOnce(&[u8]) -> Vec<u8>,
+        F: FnOnce(&[u8]) -> Vec<u8>,«
+        requires prot_encodable(self.inner().protected), prot_encodable(sig.protected), forall |a: &[u8]| call_requires(signer, (a,)),
+        ensures exists |d: &[u8], out: Vec<u8>| d@ == sign_tbs(self.inner(), aad@, sig) && call_ensures(signer, (d,), out)
+            && r.inner() == (CoseSign { signatures: r.inner().signatures, ..self.inner() })
+            && r.inner().signatures@ == self.inner().signatures@.push(CoseSignature { signature: out, ..sig }),»
     {
         let tbs_data = self.0.tbs_data(aad, &sig);
         sig.signature = signer(&tbs_data);
@@ -329,9 +344,13 @@ impl CoseSignBuilder {
         payload: &[u8],
         aad: &[u8],
         signer: F,
-    ) -> Self
+    ) ->« (r:» Self«)»
     where
-        F: FnOnce(&[u8]) -> Vec<u8>,
+        F: FnOnce(&[u8]) -> Vec<u8>,«
+        requires self.inner().payload is None, prot_encodable(self.inner().protected), prot_encodable(sig.protected), forall |a: &[u8]| call_requires(signer, (a,)),
+        ensures exists |d: &[u8], out: Vec<u8>| d@ == sign_tbs_detached(self.inner(), payload@, aad@, sig) && call_ensures(signer, (d,), out)
+            && r.inner() == (CoseSign { signatures: r.inner().signatures, ..self.inner() })
+            && r.inner().signatures@ == self.inner().signatures@.push(CoseSignature { signature: out, ..sig }),»
     {
         let tbs_data = self.0.tbs_detached_data(payload, aad, &sig);
         sig.signature = signer(&tbs_data);
@@ -346,10 +365,18 @@ impl CoseSignBuilder {
         mut sig: CoseSignature,
         aad: &[u8],
         signer: F,
-    ) -> Result<Self, E>
+    ) ->« (r:» Result<Self, E>«)»
     where
-        F: FnOnce(&[u8]) -> Result<Vec<u8>, E>,
-    {
+        F: FnOnce(&[u8]) -> Result<Vec<u8>, E>,«
+        requires prot_encodable(self.inner().protected), prot_encodable(sig.protected), forall |a: &[u8]| call_requires(signer, (a,)),
+        ensures exists |d: &[u8], out: Result<Vec<u8>, E>| d@ == sign_tbs(self.inner(), aad@, sig) && call_ensures(signer, (d,), out)
+            && match out {
+                Ok(o) => r matches Ok(b) && b.inner() == (CoseSign { signatures: b.inner().signatures, ..self.inner() })
+                    && b.inner().signatures@ == self.inner().signatures@.push(CoseSignature { signature: o, ..sig }),
+                Err(e) => r matches Err(e2) && e2 == e,
+            },»
+    {«
+        broadcast use crate::vprelude::axiom_question_mark_uses_from;»
         let tbs_data = self.0.tbs_data(aad, &sig);
         sig.signature = signer(&tbs_data)?;
         Ok(self.add_signature(sig))
@@ -368,10 +395,18 @@ impl CoseSignBuilder {
         payload: &[u8],
         aad: &[u8],
         signer: F,
-    ) -> Result<Self, E>
+    ) ->« (r:» Result<Self, E>«)»
     where
-        F: FnOnce(&[u8]) -> Result<Vec<u8>, E>,
-    {
+        F: FnOnce(&[u8]) -> Result<Vec<u8>, E>,«
+        requires self.inner().payload is None, prot_encodable(self.inner().protected), prot_encodable(sig.protected), forall |a: &[u8]| call_requires(signer, (a,)),
+        ensures exists |d: &[u8], out: Result<Vec<u8>, E>| d@ == sign_tbs_detached(self.inner(), payload@, aad@, sig) && call_ensures(signer, (d,), out)
+            && match out {
+                Ok(o) => r matches Ok(b) && b.inner() == (CoseSign { signatures: b.inner().signatures, ..self.inner() })
+                    && b.inner().signatures@ == self.inner().signatures@.push(CoseSignature { signature: o, ..sig }),
+                Err(e) => r matches Err(e2) && e2 == e,
+            },»
+    {«
+        broadcast use crate::vprelude::axiom_question_mark_uses_from;»
         let tbs_data = self.0.tbs_detached_data(payload, aad, &sig);
         sig.signature = signer(&tbs_data)?;
         Ok(self.add_signature(sig))
@@ -448,9 +483,10 @@ impl AsCborValue for CoseSign1 {«
     }
 }«
 
-pub open spec fn sign1_tbs(m: CoseSign1, aad: Seq<u8>) -> Seq<u8> {
-    crate::vprelude::enc(sig_structure(SignatureContext::CoseSign1, slot_of(m.protected), None, aad, match m.payload { Some(p) => p@, None => Seq::<u8>::empty() }))
-}»
+pub open spec fn sign1_tbs(m: CoseSign1, aad: Seq<u8>) -> Seq<u8> { sig_tbs(SignatureContext::CoseSign1, m.protected, None, aad, opt_bytes(m.payload)) }
+pub open spec fn sign1_tbs_detached(m: CoseSign1, payload: Seq<u8>, aad: Seq<u8>) -> Seq<u8> { sig_tbs(SignatureContext::CoseSign1, m.protected, None, aad, payload) }
+pub open spec fn sign_tbs(m: CoseSign, aad: Seq<u8>, sig: CoseSignature) -> Seq<u8> { sig_tbs(SignatureContext::CoseSignature, m.protected, Some(sig.protected), aad, opt_bytes(m.payload)) }
+pub open spec fn sign_tbs_detached(m: CoseSign, payload: Seq<u8>, aad: Seq<u8>, sig: CoseSignature) -> Seq<u8> { sig_tbs(SignatureContext::CoseSignature, m.protected, Some(sig.protected), aad, payload) }»
 
 impl CoseSign1 {
     /// Verify the signature value, using `verifier` on the signature value and serialized data (in
@@ -458,7 +494,7 @@ impl CoseSign1 {
     pub fn verify_signature<F, E>(&self, aad: &[u8], verifier: F) ->« (r:» Result<(), E>«)»
     where
         F: FnOnce(&[u8], &[u8]) -> Result<(), E>,«
-        requires serialisable(self.protected), forall |a: &[u8], b: &[u8]| call_requires(verifier, (a, b)),
+        requires prot_encodable(self.protected), forall |a: &[u8], b: &[u8]| call_requires(verifier, (a, b)),
         ensures exists |s: &[u8], d: &[u8]| s@ == self.signature@ && d@ == sign1_tbs(*self, aad@) && call_ensures(verifier, (s, d), r),»
     {
         let tbs_data = self.tbs_data(aad);
@@ -476,9 +512,11 @@ impl CoseSign1 {
         payload: &[u8],
         aad: &[u8],
         verifier: F,
-    ) -> Result<(), E>
+    ) ->« (r:» Result<(), E>«)»
     where
-        F: FnOnce(&[u8], &[u8]) -> Result<(), E>,
+        F: FnOnce(&[u8], &[u8]) -> Result<(), E>,«
+        requires prot_encodable(self.protected), self.payload is None, forall |a: &[u8], b: &[u8]| call_requires(verifier, (a, b)),
+        ensures exists |s: &[u8], d: &[u8]| s@ == self.signature@ && d@ == sign1_tbs_detached(*self, payload@, aad@) && call_ensures(verifier, (s, d), r),»
     {
         let tbs_data = self.tbs_detached_data(payload, aad);
         verifier(&self.signature, &tbs_data)
@@ -486,7 +524,7 @@ impl CoseSign1 {
 
     /// Construct the to-be-signed data for this object.
     pub fn tbs_data(&self, aad: &[u8]) ->« (r:» Vec<u8>«)
-        requires serialisable(self.protected),
+        requires prot_encodable(self.protected),
         ensures r@ == sign1_tbs(*self, aad@),» {
         sig_structure_data(
             SignatureContext::CoseSign1,
@@ -502,7 +540,9 @@ impl CoseSign1 {
     /// # Panics
     ///
     /// This method will panic if `self.payload.is_some()`.
-    pub fn tbs_detached_data(&self, payload: &[u8], aad: &[u8]) -> Vec<u8> {
+    pub fn tbs_detached_data(&self, payload: &[u8], aad: &[u8]) ->« (r:» Vec<u8>«)
+        requires prot_encodable(self.protected), self.payload is None,
+        ensures r@ == sign1_tbs_detached(*self, payload@, aad@),» {
         assert!(self.payload.is_none());
         sig_structure_data(
             SignatureContext::CoseSign1,
@@ -568,9 +608,12 @@ impl CoseSign1Builder {
     /// Calculate the signature value, using `signer` to generate the signature bytes.  Any
     /// protected header values should be set before using this method.
     #[must_use]
-    pub fn create_signature<F>(self, aad: &[u8], signer: F) -> Self
+    pub fn create_signature<F>(self, aad: &[u8], signer: F) ->« (r:» Self«)»
     where
-        F: FnOnce(&[u8]) -> Vec<u8>,
+        F: FnOnce(&[u8]) -> Vec<u8>,«
+        requires prot_encodable(self.inner().protected), forall |a: &[u8]| call_requires(signer, (a,)),
+        ensures exists |d: &[u8], out: Vec<u8>| d@ == sign1_tbs(self.inner(), aad@) && call_ensures(signer, (d,), out)
+            && r.inner() == (CoseSign1 { signature: out, ..self.inner() }),»
     {
         let sig_data = signer(&self.0.tbs_data(aad));
         self.signature(sig_data)
@@ -583,9 +626,12 @@ impl CoseSign1Builder {
     ///
     /// This method will panic if `self.payload.is_some()`.
     #[must_use]
-    pub fn create_detached_signature<F>(self, payload: &[u8], aad: &[u8], signer: F) -> Self
+    pub fn create_detached_signature<F>(self, payload: &[u8], aad: &[u8], signer: F) ->« (r:» Self«)»
     where
-        F: FnOnce(&[u8]) -> Vec<u8>,
+        F: FnOnce(&[u8]) -> Vec<u8>,«
+        requires self.inner().payload is None, prot_encodable(self.inner().protected), forall |a: &[u8]| call_requires(signer, (a,)),
+        ensures exists |d: &[u8], out: Vec<u8>| d@ == sign1_tbs_detached(self.inner(), payload@, aad@) && call_ensures(signer, (d,), out)
+            && r.inner() == (CoseSign1 { signature: out, ..self.inner() }),»
     {
         let sig_data = signer(&self.0.tbs_detached_data(payload, aad));
         self.signature(sig_data)
@@ -593,10 +639,17 @@ impl CoseSign1Builder {
 
     /// Calculate the signature value, using `signer` to generate the signature bytes.  Any
     /// protected header values should be set before using this method.
-    pub fn try_create_signature<F, E>(self, aad: &[u8], signer: F) -> Result<Self, E>
+    pub fn try_create_signature<F, E>(self, aad: &[u8], signer: F) ->« (r:» Result<Self, E>«)»
     where
-        F: FnOnce(&[u8]) -> Result<Vec<u8>, E>,
-    {
+        F: FnOnce(&[u8]) -> Result<Vec<u8>, E>,«
+        requires prot_encodable(self.inner().protected), forall |a: &[u8]| call_requires(signer, (a,)),
+        ensures exists |d: &[u8], out: Result<Vec<u8>, E>| d@ == sign1_tbs(self.inner(), aad@) && call_ensures(signer, (d,), out)
+            && match out {
+                Ok(o) => r matches Ok(b) && b.inner() == (CoseSign1 { signature: o, ..self.inner() }),
+                Err(e) => r matches Err(e2) && e2 == e,
+            },»
+    {«
+        broadcast use crate::vprelude::axiom_question_mark_uses_from;»
         let sig_data = signer(&self.0.tbs_data(aad))?;
         Ok(self.signature(sig_data))
     }
@@ -612,16 +665,24 @@ impl CoseSign1Builder {
         payload: &[u8],
         aad: &[u8],
         signer: F,
-    ) -> Result<Self, E>
+    ) ->« (r:» Result<Self, E>«)»
     where
-        F: FnOnce(&[u8]) -> Result<Vec<u8>, E>,
-    {
+        F: FnOnce(&[u8]) -> Result<Vec<u8>, E>,«
+        requires self.inner().payload is None, prot_encodable(self.inner().protected), forall |a: &[u8]| call_requires(signer, (a,)),
+        ensures exists |d: &[u8], out: Result<Vec<u8>, E>| d@ == sign1_tbs_detached(self.inner(), payload@, aad@) && call_ensures(signer, (d,), out)
+            && match out {
+                Ok(o) => r matches Ok(b) && b.inner() == (CoseSign1 { signature: o, ..self.inner() }),
+                Err(e) => r matches Err(e2) && e2 == e,
+            },»
+    {«
+        broadcast use crate::vprelude::axiom_question_mark_uses_from;»
         let sig_data = signer(&self.0.tbs_detached_data(payload, aad))?;
         Ok(self.signature(sig_data))
     }
 }«
 
 use crate::vprelude::*;
+use crate::header::{prot_slot, prot_encodable};
 pub open spec fn sig_ctx_text(c: SignatureContext) -> Seq<char> {
     match c { SignatureContext::CoseSignature => "Signature"@, SignatureContext::CoseSign1 => "Signature1"@, SignatureContext::CounterSignature => "CounterSignature"@ }
 }
@@ -631,8 +692,12 @@ pub open spec fn sig_structure(context: SignatureContext, body: Seq<u8>, sign: O
         Some(s) => CV::Array(seq![CV::Text(sig_ctx_text(context)), CV::Bytes(body), CV::Bytes(s), CV::Bytes(aad), CV::Bytes(payload)]),
     }
 }
-pub open spec fn serialisable(p: ProtectedHeader) -> bool { p.original_data is Some }
-pub open spec fn slot_of(p: ProtectedHeader) -> Seq<u8> { p.original_data->0@ }
+pub open spec fn opt_slot(p: Option<ProtectedHeader>) -> Option<Seq<u8>> { match p { Some(s) => Some(prot_slot(s)), None => None } }
+/// RFC 8152 section 4.4 to-be-signed bytes
+pub open spec fn sig_tbs(context: SignatureContext, body: ProtectedHeader, sign: Option<ProtectedHeader>, aad: Seq<u8>, payload: Seq<u8>) -> Seq<u8> {
+    crate::vprelude::enc(sig_structure(context, prot_slot(body), opt_slot(sign), aad, payload))
+}
+pub open spec fn opt_bytes(p: Option<Vec<u8>>) -> Seq<u8> { match p { Some(b) => b@, None => Seq::<u8>::empty() } }
 pub assume_specification [ <ProtectedHeader as Clone>::clone ] (a: &ProtectedHeader) -> (b: ProtectedHeader)
     ensures b == *a;»
 
@@ -674,9 +739,8 @@ pub fn sig_structure_data(
     aad: &[u8],
     payload: &[u8],
 ) ->« (r:» Vec<u8>«)
-    requires serialisable(body), sign matches Some(s) ==> serialisable(s),
-    ensures r@ == crate::vprelude::enc(sig_structure(context, slot_of(body), match sign» {« Some(s) => Some(slot_of(s)), None => None }, aad@, payload@)),
-{
+    requires prot_encodable(body), sign matches Some(s) ==> prot_encodable(s),
+    ensures r@ == sig_tbs(context, body, sign, aad@, payload@),» {«
     let ghost body0 = body; let ghost sign0 = sign;»
     let mut arr = vec![
         Value::Text(context.text().to_owned()),
@@ -691,7 +755,7 @@ pub fn sig_structure_data(
     let ghost arr0 = arr;
     proof {
         reveal_with_fuel(vv, 3);
-        let want = sig_structure(context, slot_of(body0), match sign0 { Some(s) => Some(slot_of(s)), None => None }, aad@, payload@);
+        let want = sig_structure(context, prot_slot(body0), opt_slot(sign0), aad@, payload@);
         let n = arr0@.len() as int;
         assert(arr0@[n-1] matches Value::Bytes(b) && b@ =~= payload@);
         assert(arr0@[n-2] matches Value::Bytes(b) && b@ =~= aad@);
